@@ -11,6 +11,8 @@ def _c18_parts(tier):
     return [
         {"engine": "lru", "params": {"max_ops": 12 if q else 40}, "runs": 120_000 if q else 3_000_000,
          "per_fork": 400, "wall_s": 60 if q else 900},
+        {"engine": "tcache", "params": {"max_ops": 10 if q else 24, "max_sources": 5}, "runs": 8_000 if q else 300_000,
+         "per_fork": 1, "wall_s": 60 if q else 900},
     ]
 
 
@@ -90,7 +92,23 @@ def _c16_parts(tier):
              "per_fork": 1, "wall_s": 90 if q else 1500}]
 
 
+def _c03_parts(tier):
+    from sim.engines import c03
+    q = tier == "quick"
+    return [{"engine": "c03", "params": c03.default_params(tier), "runs": 16_000 if q else 500_000,
+             "per_fork": 1, "wall_s": 90 if q else 1500}]
+
+
 SPECS = {
+    "C03": {
+        "level": "exploration",
+        "parts": _c03_parts,
+        "rule": "case = collision-mode program (names va/vb/vc bound at page, data, with, for level and read everywhere; `only` "
+                "flag; noise variables read only inside component templates) x history prefix x knobs; distinct = program "
+                "skeleton; non-trivial = model renders without error and a fill is rendered or a noise variable is read",
+        "real_vs_stub": RENDER_REAL,
+        "assumptions": ["layered-scope model = transcription of the statement (DESIGN.md 4/C03); shapes listed there as ambiguous are not generated"],
+    },
     "C16": {
         "level": "exploration",
         "parts": _c16_parts,
@@ -192,8 +210,10 @@ SPECS = {
     "C18": {
         "level": "exploration",
         "parts": _c18_parts,
-        "rule": "case = (maxsize, op sequence) drawn by the choice engine; distinct = distinct blake2b of it; "
-                "non-trivial = the reference model evicted at least once or a get() changed the recency order",
+        "rule": "part A: case = (maxsize, get/set/has/clear sequence); part B: case = history of cached_template calls / "
+                "component renders / failing compiles / clears, executed under every cache size {0,1,2,3,128,unbounded}; "
+                "distinct = distinct blake2b of the case; non-trivial = the reference model evicted at least once or "
+                "(part A) a get() changed the recency order",
         "real_vs_stub": REAL_STATE,
         "no_faults_reason": "none applicable to part A (pure data structure); part B injects compile failures",
         "assumptions": ["reference LRU (OrderedDict) is the specification of 'bounded LRU'"],
@@ -216,6 +236,14 @@ MANIFEST_META = {
                       "program axis, no stronger than generative testing there; the simulation adds history, ids and knobs.",
         "level_note": "Trusted: the reference renderer (sim/model/ref.py) as the meaning of the statement; the generated "
                       "language (Appendix A) as the domain; step budget as hang verdict.",
+    },
+    "C03": {
+        "engine": "render-sim", "design_ref": "DESIGN.md 4/C03",
+        "technique": _DST.format(what="collision-mode programs x history prefixes x knobs",
+                                 faults="injected callback exceptions / cache clears / GC in the history prefix") +
+        "; caller-Context snapshot oracle; two-run non-interference",
+        "level_text": "Seeded exploration with three oracles: caller-Context preservation, 2-run non-interference (isolated), layered-scope model.",
+        "level_note": "Trusted: the layered-scope transcription of the statement in sim/model/ref.py.",
     },
     "C04": {
         "engine": "render-sim", "design_ref": "DESIGN.md 4/C04",
@@ -296,7 +324,6 @@ MANIFEST_META = {
 NOT_APPLICABLE = {
     "C02": "pure function of (tag text, context): the parser/resolver reads no shared state, id, cache, clock or file; there is "
            "no schedule, history or fault for a simulator to sample (input-space property; generative testing territory)",
-    "C03": "not claimed yet (build in progress)",
     "C08": "render_dependencies is a pure bytes->bytes function given the set of component classes; the middleware's async "
            "wrapper awaits once and calls the same synchronous function; no history, schedule or fault dimension",
     "C09": "the lexer is a pure function of the template source (tag_re is swapped once at start-up, not per render)",
